@@ -134,3 +134,31 @@ func vpH_C18_T_stop_vs_demote() {
 		prev = tr[1]
 	}
 }
+
+// vpH_C18_T_follower_nowatch: the follower's Watch call fails (once; nothing re-subscribes), so it never
+// receives a notification: its LeaderID must still converge to the id in the live record through the periodic
+// check, and follow a change of owner.
+func vpH_C18_T_follower_nowatch() {
+	H := time.Second
+	vpSetOpt("rand-fixed", 1)
+	s := &vpFollowerScn{H: H}
+	s.st = vpNewStore("g", 0)
+	s.st.write("env:other", "create", vpRecMk("other", "tok-other", 0), false, 0)
+	s.kv = vpHandle(s.st, "a")
+	s.kv.watchFailLeft = 1
+	cfg := vpBaseConfig("a", H, 3*H)
+	cfg.ValidationInterval = time.Hour
+	s.e = vpMustNew(&vpProvider{s.kv}, cfg)
+	s.cb = &vpCallbacks{}
+	s.cb.install(s.e)
+	_ = s.e.Start(vpRootCtx())
+	time.Sleep(1200 * time.Millisecond)
+	vpQuiesce()
+	vpCover("C18.follower-nowatch")
+	vpAssert("C18.follower-leaderid", s.e.Status().LeaderID == "other" && !s.e.Status().IsLeader && s.e.Status().State == StateFollower)
+	s.st.write("env:third", "update", vpRecMk("third", "tok-third", 0), false, s.st.lastSeq)
+	time.Sleep(1200 * time.Millisecond)
+	vpQuiesce()
+	vpAssert("C18.follower-leaderid", s.e.Status().LeaderID == "third")
+	_ = s.e.Stop()
+}
